@@ -3395,13 +3395,17 @@ func arrayTypeLen(n *node, sc *scope) (int, error) {
 	if n.typ != nil && n.typ.cat == arrayT {
 		return n.typ.length, nil
 	}
-	max := -1
+	max, prev := -1, -1 // largest index, index of the previous element
 	for _, c := range n.child[1:] {
 		var r int
 
 		if c.kind != keyValueExpr {
-			r = max + 1
-			max = r
+			// An element without a key follows the previous element.
+			r = prev + 1
+			prev = r
+			if r > max {
+				max = r
+			}
 			continue
 		}
 
@@ -3434,6 +3438,7 @@ func arrayTypeLen(n *node, sc *scope) (int, error) {
 			}
 		}
 
+		prev = r
 		if r > max {
 			max = r
 		}
